@@ -252,15 +252,16 @@ type tkKey struct {
 }
 
 type tkRun struct {
-	c     *engine.Ctx
-	tc    tkCase
-	s     *world.Server
-	rec   *recstore.Rec
-	fs    *tokensFaultStore
-	toks  []*tkTok
-	keys  [tokensMaxKeys]*tkKey
-	trace []string
-	step  int
+	useSeq int
+	c      *engine.Ctx
+	tc     tkCase
+	s      *world.Server
+	rec    *recstore.Rec
+	fs     *tokensFaultStore
+	toks   []*tkTok
+	keys   [tokensMaxKeys]*tkKey
+	trace  []string
+	step   int
 	// key index -> token index that enrolled it
 	enrolledBy map[int]int
 	// reached the comparison under test at least once
@@ -695,6 +696,19 @@ func (h *tkRun) doUse(st *tkStep) {
 	if err != nil {
 		r.Broken("tokens: create token fetch request: " + err.Error())
 		return
+	}
+	// the request's own validity window is the presenter's to choose: backdated far into the past, or without
+	// a beginning at all; it has no say in the token's expiry
+	h.useSeq++
+	switch h.useSeq % 3 {
+	case 1:
+		req = world.Resign(req, k.node.K.Priv, func(in *types.FetchNodeCredentialsInfo) {
+			in.NotBefore = timestamppb.New(time.Now().Add(-500 * tokensDay))
+		})
+		r.Count("use:request-window-backdated", 1)
+	case 2:
+		req = world.Resign(req, k.node.K.Priv, func(in *types.FetchNodeCredentialsInfo) { in.NotBefore = nil })
+		r.Count("use:request-window-without-beginning", 1)
 	}
 	var extra []nodeenrollment.Option
 	if st.Life != tokensDefault {
